@@ -11,6 +11,7 @@ import (
 	"github.com/vedadiyan/genql/compare"
 
 	"verifharness/internal/fw"
+	"verifharness/internal/gen"
 	"verifharness/internal/val"
 )
 
@@ -91,15 +92,16 @@ func init() {
 		Exhaustive: true,
 		Rule: "exhaustive enumeration of a finite representative domain: every supported Go numeric type (int, int8..int64, uint, uint8..uint64, float32, float64) x boundary values the type holds exactly (min/max of every narrow type, +-1 around them, fractions, 2^31, 2^32, 2^53 +-1, 2^62, int64/uint64 extremes) " +
 			"and strings (empty, numeric-looking, prefixes of each other, non-ASCII). Phase 'pairs' = ALL ordered pairs: result in {-1,0,1}, agreement with the exact order (math/big rationals; strings byte-wise; number vs string by the number's decimal text), reflexivity, antisymmetry. " +
-			"Phase 'triples' = ALL same-kind triples (thorough) or a seeded 10% sample (quick): transitivity. Non-trivial = a pair of two different values; distinct = distinct (type,value) pair.",
+			"Phase 'sql' drives the same comparison through the engine over tables whose key column mixes Go numeric types and numeric strings (small integral and dyadic values, where every engine path is defined): WHERE =,<,>=; IN; ORDER BY; equi-joins (hash path) and equi-joins with an extra conjunct (nested-loop path) must keep / order / pair exactly what the exact order says. Phase 'triples' = ALL same-kind triples (thorough) or a seeded 10% sample (quick): transitivity. Non-trivial = a pair of two different values; distinct = distinct (type,value) pair.",
 		Assumptions: []string{
 			"'within the exactly-representable range': a mixed-type number pair is asserted when both values are exactly representable as float64 (|v| <= 2^53) or both are integers; same-type pairs are asserted over the type's full range",
 			"number vs string pairs are asserted for numbers whose decimal text has no exponent",
 		},
 		MinNontrivial: 1000,
-		Floor:         []string{"num-num.same-type", "num-num.mixed-type", "num-num.signed-unsigned", "num-num.int-float", "str-str", "num-str", "str-num", "triple.num", "triple.str"},
+		Floor:         []string{"num-num.same-type", "num-num.mixed-type", "num-num.signed-unsigned", "num-num.int-float", "str-str", "num-str", "str-num", "triple.num", "triple.str", "sql.where", "sql.in", "sql.order", "sql.join.hash", "sql.join.loop", "sql.join.mixed-type", "sql.join.num-str"},
 		Phases: []fw.Phase{
 			{Name: "pairs", N: func(t fw.Tier) int { return nPairs() }, Run: c15Pair, Batch: 0},
+			{Name: "sql", N: func(t fw.Tier) int { return pick(t, 1200, 20000) }, Run: c15SQL},
 			{Name: "triples", N: func(t fw.Tier) int { n := len(c15Nums); return n*n + len(c15Strs)*len(c15Strs) }, Run: c15Triples},
 		},
 		Witness: func(c *fw.Case, w *fw.Finding) { c.Discard("no witness runner") },
@@ -303,4 +305,164 @@ func c15Triples(c *fw.Case) {
 	c.Count("triples_checked", checked)
 	c.Sample(map[string]any{"a": show15(a), "b": show15(b), "third_values_checked": checked})
 	c.Nontrivial("t|" + show15(a) + "|" + show15(b))
+}
+
+
+// c15SQLDomain: values at which the decimal text, the value comparison and the
+// join key fingerprint are all defined and must agree.
+var c15SQLNums = []any{int(1), int8(1), uint(1), float64(1), uint8(200), float64(200), int16(200), float32(2), int64(2), uint64(3), int32(3), float64(1.5), float32(1.5), int(-1), float64(-1), int8(-1),
+	uint16(65535), int32(65535), float64(65535), uint32(70000), int(70000), float64(0), int(0), uint8(0), float32(0.25), float64(0.25), int64(42), float64(42), uint(42)}
+var c15SQLStrs = []any{"1", "200", "3", "42", "1.5", "-1", "x", "0", "65535", "2"}
+
+// c15SQL: the comparison as WHERE, IN, ORDER BY and joins use it.
+func c15SQL(c *fw.Case) {
+	mk := func(n int, withStr bool) []any {
+		rows := make([]any, n)
+		for i := range rows {
+			var k any
+			if withStr && c.Chance(0.3) {
+				k = c15SQLStrs[c.Intn(len(c15SQLStrs))]
+			} else {
+				k = c15SQLNums[c.Intn(len(c15SQLNums))]
+			}
+			rows[i] = map[string]any{"id": float64(i), "k": k}
+		}
+		return rows
+	}
+	exact := func(a, b any) int { w, _, _ := c15Expect(a, b); return w }
+	kind := c.Idx % 4
+	withStr := c.Chance(0.5)
+	lt, rt := mk(2+c.Intn(7), withStr), mk(2+c.Intn(7), withStr)
+	doc := func() map[string]any { return map[string]any{"lt": val.Copy(lt), "rt": val.Copy(rt)} }
+	keyOf := func(r any) any { return r.(map[string]any)["k"] }
+	switch kind {
+	case 0: // WHERE
+		lit := c15SQLNums[c.Intn(len(c15SQLNums))]
+		op := []string{"=", "<", ">=", "!=", "<=", ">"}[c.Intn(6)]
+		sql := fmt.Sprintf("SELECT id FROM lt WHERE k %s %v", op, lit)
+		var want []any
+		for _, r := range lt {
+			w := exact(keyOf(r), lit)
+			if map[string]bool{"=": w == 0, "<": w < 0, ">=": w >= 0, "!=": w != 0, "<=": w <= 0, ">": w > 0}[op] {
+				want = append(want, r.(map[string]any)["id"])
+			}
+		}
+		c.Feature("sql.where")
+		c15SQLCheck(c, doc(), sql, want, "id", false)
+	case 1: // IN
+		var lits []string
+		var lv []any
+		for i := 0; i < 1+c.Intn(3); i++ {
+			v := c15SQLNums[c.Intn(len(c15SQLNums))]
+			lv = append(lv, v)
+			lits = append(lits, fmt.Sprint(v))
+		}
+		sql := "SELECT id FROM lt WHERE k IN (" + strings.Join(lits, ", ") + ")"
+		var want []any
+		for _, r := range lt {
+			for _, v := range lv {
+				if exact(keyOf(r), v) == 0 {
+					want = append(want, r.(map[string]any)["id"])
+					break
+				}
+			}
+		}
+		c.Feature("sql.in")
+		c15SQLCheck(c, doc(), sql, want, "id", false)
+	case 2: // ORDER BY (numbers only: a total order there)
+		lt = mk(3+c.Intn(8), false)
+		desc := c.Chance(0.5)
+		sql := "SELECT id, k FROM lt ORDER BY k"
+		if desc {
+			sql += " DESC"
+		}
+		o := Run(doc(), sql)
+		c.Evals(1)
+		c.Feature("sql.order")
+		det := map[string]any{"sql": sql, "doc": val.Show(lt), "observed": o.Describe()}
+		if !o.OK() || len(o.Rows) != len(lt) {
+			c.Violate("sql-order", fmt.Sprintf("ORDER BY over mixed numeric types failed or lost rows: %v", short(fmt.Sprint(o.Describe()), 200)), det)
+			return
+		}
+		for i := 1; i < len(o.Rows); i++ {
+			w := exact(val.Deref(keyOf(o.Rows[i-1])), val.Deref(keyOf(o.Rows[i])))
+			if desc {
+				w = -w
+			}
+			if w > 0 {
+				c.Violate("sql-order", fmt.Sprintf("ORDER BY placed %s before %s", show15(keyOf(o.Rows[i-1])), show15(keyOf(o.Rows[i]))), det)
+				return
+			}
+		}
+		c.Nontrivial(sql + val.Canon(lt))
+	default: // joins
+		jn := []string{"JOIN", "LEFT JOIN", "HASH_JOIN", "PARALLEL JOIN", "STRAIGHT_JOIN"}[c.Intn(5)]
+		on := "x.k = y.k"
+		feat := "sql.join.hash"
+		if c.Chance(0.5) {
+			// not a pure conjunction of equalities: nested-loop path
+			on = gen.Pick(c.R, []string{"x.k = y.k OR x.k = y.k", "x.k >= y.k AND x.k <= y.k", "x.k = y.k AND x.id <= x.id"})
+			feat = "sql.join.loop"
+		}
+		sql := "SELECT x.id AS l, y.id AS r FROM lt x " + jn + " rt y ON " + on
+		var want []any
+		for _, l := range lt {
+			for _, r := range rt {
+				if exact(keyOf(l), keyOf(r)) == 0 {
+					want = append(want, fmt.Sprint(l.(map[string]any)["id"], "-", r.(map[string]any)["id"]))
+					if reflect.TypeOf(keyOf(l)) != reflect.TypeOf(keyOf(r)) {
+						if val.IsNumber(keyOf(l)) != val.IsNumber(keyOf(r)) {
+							c.Feature("sql.join.num-str")
+						} else {
+							c.Feature("sql.join.mixed-type")
+						}
+					}
+				}
+			}
+		}
+		c.Feature(feat)
+		o := Run(doc(), sql)
+		c.Evals(1)
+		det := map[string]any{"sql": sql, "left": val.Show(lt), "right": val.Show(rt), "observed": o.Describe(), "expected_pairs": want}
+		if !o.OK() {
+			c.Violate("sql-join", fmt.Sprintf("join over mixed key types failed: %v", short(fmt.Sprint(o.Describe()), 200)), det)
+			return
+		}
+		var got []any
+		for _, r := range o.Rows {
+			m, _ := r.(map[string]any)
+			if m == nil || m["r"] == nil || m["l"] == nil {
+				continue // unmatched row of an outer join
+			}
+			got = append(got, fmt.Sprint(val.Deref(m["l"]), "-", val.Deref(m["r"])))
+		}
+		if !val.SameMultiset(got, want) {
+			c.Violate("sql-join", fmt.Sprintf("the join paired %v, the value comparison calls exactly %v equal", got, want), det)
+			return
+		}
+		if len(want) > 0 {
+			c.Nontrivial(sql + val.Canon(lt) + val.Canon(rt))
+		}
+	}
+}
+
+func c15SQLCheck(c *fw.Case, doc map[string]any, sql string, want []any, col string, _ bool) {
+	o := Run(doc, sql)
+	c.Evals(1)
+	det := map[string]any{"sql": sql, "doc": val.Show(doc), "observed": o.Describe(), "expected": want}
+	if !o.OK() {
+		c.Violate("sql-filter", fmt.Sprintf("query failed: %v", short(fmt.Sprint(o.Describe()), 200)), det)
+		return
+	}
+	var got []any
+	for _, r := range o.Rows {
+		got = append(got, val.Deref(r.(map[string]any)[col]))
+	}
+	if !val.SameSeq(got, want) {
+		c.Violate("sql-filter", fmt.Sprintf("`%s` kept ids %v, the exact order keeps %v", sql, got, want), det)
+		return
+	}
+	if len(want) > 0 && len(want) < len(doc["lt"].([]any)) {
+		c.Nontrivial(sql + val.Canon(doc))
+	}
 }
